@@ -8,6 +8,7 @@ import CSD.Driver.Util
 import CSD.Driver.Dict
 import CSD.Driver.Comp
 import CSD.Driver.Kinds
+import CSD.Driver.Check
 
 open CSD CSD.Driver
 
@@ -19,6 +20,7 @@ def runCase (c : Case) : IO Unit := do
   | "vbyte" => runVByte c emit
   | "logseq" => runLogSeq c emit
   | "pool" => runPool c emit
+  | "codes" | "bits" | "repair" => runCheckStreams c emit
   | _ => emit 1 s!"ERR unknown-stream {c.stream}"
 
 partial def loop (h : IO.FS.Stream) (cur : Option Case) : IO Unit := do
